@@ -241,6 +241,10 @@ func runScript(c Case, res *lib.Result) (ret string) {
 }
 
 func readAll(rd io.Reader, bufs []int) ([]byte, error) {
+	return readAllRec(rd, bufs, nil)
+}
+
+func readAllRec(rd io.Reader, bufs []int, rec func(n int, b []byte, err error)) ([]byte, error) {
 	var out []byte
 	i := 0
 	for {
@@ -251,6 +255,9 @@ func readAll(rd io.Reader, bufs []int) ([]byte, error) {
 		}
 		p := make([]byte, n)
 		k, err := rd.Read(p)
+		if rec != nil {
+			rec(n, p[:k], err)
+		}
 		out = append(out, p[:k]...)
 		if err == io.EOF {
 			return out, nil
@@ -264,8 +271,13 @@ func readAll(rd io.Reader, bufs []int) ([]byte, error) {
 	}
 }
 
-func runEnd(c Case, dir string, res *lib.Result) {
+// runEnd returns, for registry reads without a rewind, the Coq term of the case (scripted registry, the sizes of
+// the Read calls, what each returned, the Range of every GET) for the model of the resume layer under BReader
+func runEnd(c Case, dir string, res *lib.Result) (term string) {
 	defer res.Recover(c)
+	var ranges []string
+	var hdrTerm = "None"
+	opened := false // BlobGet has returned: the reader was built from the response before this moment
 	ctx, cancel := context.WithTimeout(context.Background(), 8*time.Second)
 	defer cancel()
 	defer func() {
@@ -292,6 +304,16 @@ func runEnd(c Case, dir string, res *lib.Result) {
 				a = c.Attempt[att]
 			}
 			att++
+			if rg := req.Header.Get("Range"); rg != "" {
+				var s0, e0 int64
+				if _, err := fmt.Sscanf(rg, "bytes=%d-%d", &s0, &e0); err == nil {
+					ranges = append(ranges, "Some "+lib.CoqZ(s0))
+				} else {
+					ranges = append(ranges, "Some (-1)%Z")
+				}
+			} else {
+				ranges = append(ranges, "None")
+			}
 			stream := c.Served
 			if a.UseGood {
 				stream = c.Content
@@ -325,6 +347,16 @@ func runEnd(c Case, dir string, res *lib.Result) {
 				hdr["Docker-Content-Digest"] = "sha256:nothex"
 			}
 			hdr["Content-Length"] = strconv.Itoa(len(bodyB) + a.CLDelta)
+			if !opened {
+				hd := "None"
+				switch c.HdrDig {
+				case "served":
+					hd = "(Some " + coqBytes(stream) + ")"
+				case "good":
+					hd = "(Some " + coqBytes(c.Content) + ")"
+				}
+				hdrTerm = fmt.Sprintf("(Some (%s, %s))", lib.CoqZ(int64(len(bodyB)+a.CLDelta)), hd)
+			}
 			if req.Method == "HEAD" {
 				return memrt.Resp(200, hdr, nil)
 			}
@@ -358,13 +390,50 @@ func runEnd(c Case, dir string, res *lib.Result) {
 		r, _ = ref.New("ocidir://" + lay + ":tag")
 		defer os.RemoveAll(lay)
 	}
+	mkTerm := func(sizes []int, obs []string) string {
+		// (the empty blob is answered without any request: nothing to compare)
+		if c.Kind != "reg" || c.Rewind || len(c.Content) >= 100 || len(c.Served) >= 100 || len(ranges) == 0 {
+			return ""
+		}
+		dig := "(DEmpty _)"
+		if c.DigKind == "invalid" {
+			dig = "(DInvalid _)"
+		}
+		if d.Digest.Validate() == nil {
+			exp := c.Content
+			if c.DigKind == "wrong" {
+				exp = append([]byte("other"), c.Content...)
+			}
+			dig = "(DValid _ " + coqBytes(exp) + ")"
+		}
+		var atts, ops []string
+		for _, a := range c.Attempt {
+			atts = append(atts, fmt.Sprintf("mkAtt %s %s %s %s %s %s", lib.CoqZ(int64(a.DropAt)), lib.CoqBool(a.UseGood), lib.CoqBool(a.HonorRange), lib.CoqZ(int64(a.Skew)), lib.CoqBool(a.NoCR), lib.CoqZ(int64(a.CLDelta))))
+		}
+		for _, n := range sizes {
+			ops = append(ops, fmt.Sprintf("%d%%nat", n))
+		}
+		return fmt.Sprintf("XR (mkRC %s %s %s %s %s %s 4%%nat %s %s %s)", coqBytes(c.Content), coqBytes(c.Served), lib.CoqList(atts), lib.CoqZ(c.Size), dig, hdrTerm,
+			lib.CoqList(ops), lib.CoqList(obs), lib.CoqList(ranges))
+	}
 	rd, err := rc.BlobGet(ctx, r, d)
+	opened = true
 	if err != nil {
 		res.Count(c.Kind + ":open-error")
-		return
+		return mkTerm(nil, nil)
 	}
 	defer rd.Close()
-	out, err := readAll(rd, c.Bufs)
+	var sizes []int
+	var obsT []string
+	out, err := readAllRec(rd, c.Bufs, func(n int, b []byte, e error) {
+		sizes = append(sizes, n)
+		obsT = append(obsT, fmt.Sprintf("(%s, %d%%nat)", coqBytes(b), classify(e)))
+	})
+	defer func() {
+		if ctx.Err() == nil {
+			term = mkTerm(sizes, obsT)
+		}
+	}()
 	if err == nil {
 		res.Count(c.Kind + ":clean")
 		checkClean(c, d, out, res, "")
@@ -380,6 +449,7 @@ func runEnd(c Case, dir string, res *lib.Result) {
 			}
 		}
 	}
+	return term
 }
 
 func mutate(r *lib.Rand, c []byte) []byte {
@@ -537,7 +607,7 @@ func Run(o lib.Opts) {
 	}
 	r := lib.NewRand(o.Seed)
 	n := o.Scale(1500, 40000)
-	cw := lib.NewCaseWriter(o.Out, "C01", "From Coq Require Import List String ZArith NArith.\nFrom Verif Require Import Base.StrX Model.C01_BlobRead Corr.C01.\nImport ListNotations.", "case", 700)
+	cw := lib.NewCaseWriter(o.Out, "C01", "From Coq Require Import List String ZArith NArith.\nFrom Verif Require Import Base.StrX Model.C01_BlobRead Model.C01_Resume Corr.C01.\nImport ListNotations.", "xcase", 700)
 	seen := lib.Set{}
 	for i := 0; i < n; i++ {
 		c := genCase(r)
@@ -558,11 +628,13 @@ func Run(o lib.Opts) {
 		if c.Kind == "script" {
 			term := runScript(c, res)
 			if o.Mode != "search" && len(c.Content) < 100 {
-				cw.Add(term, c)
+				cw.Add("XS ("+term+")", c)
 			}
 		} else {
 			t0 := time.Now()
-			runEnd(c, o.Out, res)
+			if term := runEnd(c, o.Out, res); term != "" && o.Mode != "search" {
+				cw.Add(term, c)
+			}
 			if el := time.Since(t0); el > 300*time.Millisecond && os.Getenv("VH_DEBUG") != "" {
 				b, _ := json.Marshal(c)
 				fmt.Println("SLOW", el, string(b))
